@@ -31,7 +31,8 @@
 (*                                                                         *)
 (* Outcomes(tab, h, qt) is the SET of admissible outcomes.  It is a        *)
 (* singleton except where the statement is silent; every such place is     *)
-(* marked SILENT below and listed in notes/C06.md.                         *)
+(* marked SILENT below and listed in notes/C06.md.  The table is edited    *)
+(* through TabAdd / TabDelete / TabUpdate (the three API calls).           *)
 (***************************************************************************)
 EXTENDS Sequences, Naturals, FiniteSets
 
@@ -201,6 +202,48 @@ OutcomesFrom(tab, h0, qt, cs) ==
            : s \in StepResults(tab, h0, qt, cs)}
 
 Outcomes(tab, h0, qt) == OutcomesFrom(tab, h0, qt, ChaseInit(h0))
+
+(***************************************************************************)
+(* Letter case of the ANSWER of a CNAME entry -- SILENT (case).  Patterns  *)
+(* are documented to be normalised to lower case and request names are     *)
+(* compared case-insensitively, but neither the statement nor the          *)
+(* documentation says whether a canonical name written "Host.Example"      *)
+(* continues at the entry for host.example.  Two readings:                 *)
+(*   folded    it does: the table is the one with all names in lower case; *)
+(*   verbatim  it does not: such an answer is a name of its own that no    *)
+(*             pattern matches and that equals no pattern text (so it is   *)
+(*             neither followed nor a "name to itself").                   *)
+(* The harness only writes answers in which EVERY label differs in case    *)
+(* from the lower-case form, so "verbatim" is exactly "a foreign name":    *)
+(* Estrange appends a label no pattern ends in.  Names in outcomes are     *)
+(* compared case-insensitively (Unmark).  Termination is demanded under    *)
+(* either reading.                                                         *)
+(***************************************************************************)
+Mark == "^"
+Estrange(e) == IF IsCname(e) THEN [e EXCEPT !.t = @ \o <<Mark>>] ELSE e
+Unmark(n) == IF n # <<>> /\ n[Len(n)] = Mark THEN SubSeq(n, 1, Len(n) - 1) ELSE n
+UnmarkOut(o) == [o EXCEPT !.canon = Unmark(@)]
+\* mixed(i): is the answer of entry i written in another case?
+OutcomesAnyCase(tab, mixed(_), h0, qt) ==
+    Outcomes(tab, h0, qt) \cup
+    {UnmarkOut(o) : o \in Outcomes([i \in DOMAIN tab |-> IF mixed(i) THEN Estrange(tab[i]) ELSE tab[i]], h0, qt)}
+
+(***************************************************************************)
+(* The table changes through three API calls; the outcome of a query       *)
+(* depends on the CURRENT table only (Outcomes has no other argument).     *)
+(*   add     appends the entry;                                            *)
+(*   delete  removes every entry equal to the given one (none: no change); *)
+(*   update  replaces the first entry equal to old IN PLACE by new; if     *)
+(*           there is none the call fails and nothing changes.             *)
+(***************************************************************************)
+TabAdd(tab, e) == Append(tab, e)
+TabDelete(tab, e) == SelectSeq(tab, LAMBDA x : x # e)
+TabUpdate(tab, old, new) ==
+    IF \E i \in DOMAIN tab : tab[i] = old
+    THEN [ok |-> TRUE,
+          tab |-> LET k == CHOOSE i \in DOMAIN tab : tab[i] = old /\ \A j \in DOMAIN tab : tab[j] = old => i <= j
+                  IN [tab EXCEPT ![k] = new]]
+    ELSE [ok |-> FALSE, tab |-> tab]
 
 \* The name whose addresses an outcome carries.
 FinalName(o, h0) == IF o.canon = NoName THEN h0 ELSE o.canon
